@@ -108,6 +108,7 @@ func Flatten(opts FlattenOpts) error {
 	debugLog("FlattenOpts: %#v", opts)
 
 	opts.flattenContext = newContext()
+	verifPhase("start", &opts)
 
 	// 1. Recursively expand responses, parameters, path items and items in simple schemas.
 	//
@@ -115,6 +116,7 @@ func Flatten(opts FlattenOpts) error {
 	if err := expand(&opts); err != nil {
 		return err
 	}
+	verifPhase("expand", &opts)
 
 	// 2. Strip the current document from absolute $ref's that actually a in the root,
 	// so we can recognize them as proper definitions
@@ -123,24 +125,28 @@ func Flatten(opts FlattenOpts) error {
 	if err := normalizeRef(&opts); err != nil {
 		return err
 	}
+	verifPhase("normalizeRef", &opts)
 
 	// 3. Optionally remove shared parameters and responses already expanded (now unused).
 	//
 	// Operation parameters (i.e. under paths) remain.
 	if opts.RemoveUnused {
 		removeUnusedShared(&opts)
+		verifPhase("removeUnusedShared", &opts)
 	}
 
 	// 4. Import all remote references.
 	if err := importReferences(&opts); err != nil {
 		return err
 	}
+	verifPhase("importReferences", &opts)
 
 	// 5. full flattening: rewrite inline schemas (schemas that aren't simple types or arrays or maps)
 	if !opts.Minimal && !opts.Expand {
 		if err := nameInlinedSchemas(&opts); err != nil {
 			return err
 		}
+		verifPhase("nameInlinedSchemas", &opts)
 	}
 
 	// 6. Rewrite JSON pointers other than $ref to named definitions
@@ -152,6 +158,7 @@ func Flatten(opts FlattenOpts) error {
 	// 7. Strip the spec from unused definitions
 	if opts.RemoveUnused {
 		removeUnused(&opts)
+		verifPhase("removeUnused", &opts)
 	}
 
 	// 8. Issue warning notifications, if any
@@ -477,12 +484,14 @@ func stripPointersAndOAIGen(opts *FlattenOpts) error {
 	if err := namePointers(opts); err != nil {
 		return err
 	}
+	verifPhase("namePointers", opts)
 
 	// remove unnecessary OAIGen ref (created when flattening external refs creates name conflicts)
 	hasIntroducedPointerOrInline, ers := stripOAIGen(opts)
 	if ers != nil {
 		return ers
 	}
+	verifPhase("stripOAIGen", opts)
 
 	// iterate as pointer or OAIGen resolution may introduce inline schemas or pointers
 	for hasIntroducedPointerOrInline {
@@ -491,17 +500,20 @@ func stripPointersAndOAIGen(opts *FlattenOpts) error {
 			if err := nameInlinedSchemas(opts); err != nil {
 				return err
 			}
+			verifPhase("nameInlinedSchemas", opts)
 		}
 
 		if err := namePointers(opts); err != nil {
 			return err
 		}
+		verifPhase("namePointers", opts)
 
 		// restrip and re-analyze
 		var err error
 		if hasIntroducedPointerOrInline, err = stripOAIGen(opts); err != nil {
 			return err
 		}
+		verifPhase("stripOAIGen", opts)
 	}
 
 	return nil
